@@ -269,6 +269,8 @@ def c09(ck, F, tier):
     T = load_tables(F)
     guarded(ck, rn.error_tables, F, T)
     guarded(ck, rp.lit_rule, F)
+    ck.rule("SEP", "separators chosen by the printers are the tokens the parser expects in that locale", floor=6, exhaustive=True)
+    guarded(ck, rp.sep_rule, F)
 
 
 def c16(ck, F, tier):
@@ -285,7 +287,71 @@ def c16(ck, F, tier):
     guarded(ck, rp.sep_rule, F)
 
 
-PROPS = {"C08": c08, "C16": c16, "C09": c09, "C22": c22, "C34": c34, "C21": c21, "C05": c05, "C28": c28, "C10": c10, "C29": c29, "C17": c17, "C01": c01, "C02": c02, "C03": c03, "C04": c04, "C23": c23, "C26": c26}
+_STRUCT_NOTE = ("The piecewise index maps themselves (formula references, CF ranges, links, column descriptors) being equal / inverse "
+                "is arithmetic over symbolic positions and is not decided; nor are formula values after the edit.")
+
+
+def _struct_common(ck, F, which):
+    import rules_struct as rs
+    ck.rule("SPILL-RESET", "dynamic spills are reset before any cell relocation", floor=12)
+    ck.rule("VALIDATE-FIRST", "no explicit Err after the first persistent write; can_* pre-check dominates writes", floor=12)
+    ck.rule("TRIPLE", "formulas, links and conditional-format ranges are displaced together", floor=12)
+    guarded(ck, rs.spill_reset, F)
+    guarded(ck, rs.validate_first, F)
+    guarded(ck, rs.triple, F)
+    ck.rule("RE-ENTRY", "relocated cells are moved as values, not re-entered as display text", floor=3)
+    guarded(ck, rs.reentry, F)
+    guarded(ck, rs.value_move, F)
+
+
+def c12(ck, F, tier):
+    import rules_struct as rs
+    ck.explanation = (
+        "Static decision of the structure of row/column insertion: spills are reset before any relocation (dominance), the "
+        "array-formula pre-check dominates the first persistent write and no explicit error follows it, formulas/links/"
+        "conditional formats are displaced together with one DisplaceData value on the same sheet, the row-descriptor rebuild "
+        "shifts by +count under a guard on the insertion position, and the inventory of text re-entry sites. " + _STRUCT_NOTE)
+    _struct_common(ck, F, "insert")
+    ck.rule("SHIFT-PAIR", "descriptor rebuild shifts by +count / -count under the right guards", floor=4)
+    guarded(ck, rs.shift_pair, F)
+
+
+def c13(ck, F, tier):
+    import rules_struct as rs
+    ck.explanation = (
+        "Static decision of the structure of row/column deletion: same rule set as C12 on delete_rows/delete_columns "
+        "(spill reset dominance, validate-first, TRIPLE with the negative DisplaceData, descriptor rebuild dropping the band "
+        "and shifting by -count under a guard on position+count), plus the re-entry inventory. " + _STRUCT_NOTE)
+    _struct_common(ck, F, "delete")
+    ck.rule("SHIFT-PAIR", "descriptor rebuild shifts by +count / -count under the right guards", floor=4)
+    guarded(ck, rs.shift_pair, F)
+
+
+def c14(ck, F, tier):
+    import rules_struct as rs
+    ck.explanation = (
+        "Static decision of the inverse pairing visible without solving arithmetic: insert_rows rebuilds row descriptors with "
+        "r+count for r>=row, delete_rows with r-count for r>=row+count and drops the band (operand provenance and guard "
+        "operands), both displace formulas/links/CF with DisplaceData::Row of opposite sign, and both relocate cells through "
+        "the same move_cell (whose text re-entry is the inventoried reason the composition is not the identity on "
+        "re-interpretable content). " + _STRUCT_NOTE)
+    _struct_common(ck, F, "pair")
+    ck.rule("SHIFT-PAIR", "descriptor rebuild shifts by +count / -count under the right guards", floor=4)
+    guarded(ck, rs.shift_pair, F)
+
+
+def c15(ck, F, tier):
+    import rules_struct as rs
+    ck.explanation = (
+        "Static decision of the structure of block moves: spill reset dominance and validate-first on move_rows_action / "
+        "move_columns_action, TRIPLE inside move_row_unchecked / move_column_unchecked, and MOVE-ORDER: the block is iterated "
+        "in reverse exactly on the `delta > 0` branch (the order that keeps not-yet-moved rows/columns intact). " + _STRUCT_NOTE)
+    _struct_common(ck, F, "move")
+    ck.rule("MOVE-ORDER", "block move iterates reversed iff delta > 0", floor=6)
+    guarded(ck, rs.move_order, F)
+
+
+PROPS = {"C08": c08, "C12": c12, "C13": c13, "C14": c14, "C15": c15, "C16": c16, "C09": c09, "C22": c22, "C34": c34, "C21": c21, "C05": c05, "C28": c28, "C10": c10, "C29": c29, "C17": c17, "C01": c01, "C02": c02, "C03": c03, "C04": c04, "C23": c23, "C26": c26}
 
 
 def run(pid, tier):
